@@ -257,13 +257,19 @@ Proof.
   cbn [snd] in *. apply Tr_set_scopes, Hi.
 Qed.
 
+Lemma Tr_pause w d : Tr w -> Tr (pause w d).
+Proof. intros H. unfold pause. destruct (0 <? d); [apply Tr_wait, H|exact H]. Qed.
+
 Lemma fallback_layer_preserves pos cfg inner : preserves inner -> preserves (fallback_layer pos cfg inner).
 Proof.
   intros Hi c w H. unfold fallback_layer. specialize (Hi c w H). destruct (inner c w) as [r w1]. cbn [snd] in Hi.
   destruct (is_failure (fb_fpol cfg) (pr_out r)).
-  - set (w2 := ev_with_result w1 c KPolFailure pos _). assert (H2 : Tr w2) by (apply Tr_ev_with_result; [reflexivity|exact Hi]).
+  - set (w2 := pause (ev_with_result w1 c KPolFailure pos _) _).
+    assert (H2 : Tr w2) by (apply Tr_pause, Tr_ev_with_result; [reflexivity|exact Hi]).
     cbn [pr_succ with_failure]. destruct (is_canceled w2 c); [exact H2|].
-    cbn [snd]. try apply Tr_stamp; apply Tr_emit; [reflexivity|exact H2].
+    set (w3 := pause w2 _). assert (H3 : Tr w3) by (apply Tr_pause, H2).
+    destruct (is_canceled w3 c); [exact H3|].
+    cbn [snd]. try apply Tr_stamp; apply Tr_emit; [reflexivity|exact H3].
   - cbn [pr_succ with_done]. cbn [snd]. apply Tr_ev_with_result; [reflexivity|exact Hi].
 Qed.
 
@@ -283,7 +289,8 @@ Proof. intros H. unfold put_rstate. apply Tr_set_retry, H. Qed.
 Lemma retry_on_failure_Tr cfg pos c r w : Tr w -> Tr (snd (retry_on_failure cfg pos c r w)).
 Proof.
   intros H. unfold retry_on_failure.
-  set (w0 := ev_with_result w c KPolFailure pos r). assert (H0 : Tr w0) by (apply Tr_ev_with_result; [reflexivity|exact H]).
+  set (w0 := pause (ev_with_result w c KPolFailure pos r) (r_lsn_dur cfg)).
+  assert (H0 : Tr w0) by (apply Tr_pause, Tr_ev_with_result; [reflexivity|exact H]).
   set (w1 := put_rstate w0 pos _). assert (H1 : Tr w1) by (apply put_rstate_Tr, H0).
   set (ab := is_abortable (r_abort cfg) (pr_out r)).
   set (w2 := if ab then ev_with_result w1 c KAbort pos r else w1).
